@@ -215,7 +215,24 @@ def _interval_labels(a, b, n=None):
 def rule_cases(draw):
     n = draw(n_rule())
     a, b = draw(intervals(max_logratio=8.6 if n <= 200 else 4.6, extreme=True))
-    return {"n": n, "a": a, "b": b}
+    # the end points as the caller holds them: Python floats, numpy float32 scalars, Python or small numpy ints
+    return {"n": n, "a": a, "b": b, "ab_as": draw(st.sampled_from(["float", "float", "float", "f4", "int", "i2"]))}
+
+
+def _endpoints(case):
+    """(a, b as handed to gauleg, a, b as exact floats, label)"""
+    a, b, how = case["a"], case["b"], case.get("ab_as", "float")
+    big = max(abs(a), abs(b))
+    if how == "f4" and 1e-30 < big < 1e30 and abs(b - a) >= 1e-3 * big:
+        fa, fb = np.float32(a), np.float32(b)
+        if fa != fb:
+            return fa, fb, float(fa), float(fb), "f4"
+    if how in ("int", "i2") and big < 3e4 and round(a) != round(b) and abs(round(b) - round(a)) >= 1e-3 * big:
+        ia, ib = int(round(a)), int(round(b))
+        if how == "i2":
+            return np.int16(ia), np.int16(ib), float(ia), float(ib), "i2"
+        return ia, ib, float(ia), float(ib), "int"
+    return a, b, a, b, "float"
 
 
 def rule_exhaustive(tier):
@@ -225,8 +242,9 @@ def rule_exhaustive(tier):
 
 def check_rule(case, ctx):
     from esutil.integrate import gauleg
-    n, a, b = case["n"], case["a"], case["b"]
-    r = must(gauleg, a, b, n)
+    n = case["n"]
+    arg_a, arg_b, a, b, _ = _endpoints(case)
+    r = must(gauleg, arg_a, arg_b, n)
     require(isinstance(r, tuple) and len(r) == 2, "gauleg must return (x, w), got %r", type(r))
     x, w = r
     require(isinstance(x, np.ndarray) and isinstance(w, np.ndarray) and x.shape == (n,) and w.shape == (n,),
@@ -265,7 +283,8 @@ def check_rule(case, ctx):
 
 
 def classify_rule(case):
-    return _interval_labels(case["a"], case["b"], case["n"])
+    _, _, a, b, how = _endpoints(case)
+    return _interval_labels(a, b, case["n"]) + ["endpoints-as:" + how]
 
 
 # --------------------------------------------------------------------------- sub-check: exact
